@@ -173,7 +173,8 @@ def direct_oracle(spec, lines, fail):
         return (f"surface species {name}: log activity {lhs!r} (LA read-out {la!r}) but its database mass-action equation with the "
                 f"electrostatic term gives {rhs!r}")
     if kind == "site-related":
-        if abs(lhs - rhs) <= tol * max(abs(lhs), abs(rhs)):
+        big = max([abs(lhs), abs(rhs)] + [bb["R"].get(f"surf:{name}", 0.0) for bb in blocks[:blk + 1]])
+        if abs(lhs - rhs) <= tol * (blk + 2) * big:
             return None
         return (f"site type {name} is related to a reactant: surface species sum to {lhs!r} mol but proportion x moles of the "
                 f"reactant (EQUI/KIN read-out) = {rhs!r} mol")
